@@ -83,6 +83,11 @@ fn c08(ops: &TypeOps, b: &[u8], plain: &(Option<Val>, usize)) {
 		let v = via(ops, &mut r, word);
 		results.push(("IoReader<short reads>", v, r.0.pos));
 	}
+	{
+		monitor::ops::zst_input_load(b);
+		let v = (ops.d().zst_val)();
+		results.push(("zero-sized input type", v, monitor::ops::zst_input_state().0));
+	}
 	match (ops.d().bytes)(b.to_vec()) {
 		Some((v, used)) => results.push(("shared buffer", Some(v), used)),
 		None => results.push(("shared buffer", None, 0)),
